@@ -71,7 +71,22 @@ func cmdSelftest(args []string) int {
 				}
 				for s := 0; s < seeds; s++ {
 					id++
-					pool.jobs <- &Job{ID: id, Prop: p, Profile: profiles[s%len(profiles)], Seed: base*7919 + int64(s), WantLog: dump != ""}
+					j := &Job{ID: id, Prop: p, Profile: profiles[s%len(profiles)], Seed: base*7919 + int64(s), WantLog: dump != ""}
+					if spec.Cells > 0 {
+						j.Knobs = map[string]int{"cell": s % spec.Cells}
+					}
+					if dk := os.Getenv("VERIF_KNOBS"); dk != "" { // e.g. VERIF_KNOBS=uyield=1: determinism of the unlock-yield pass
+						if j.Knobs == nil {
+							j.Knobs = map[string]int{}
+						}
+						for _, kv := range strings.Split(dk, ",") {
+							if i := strings.Index(kv, "="); i > 0 {
+								v, _ := strconv.Atoi(kv[i+1:])
+								j.Knobs[kv[:i]] = v
+							}
+						}
+					}
+					pool.jobs <- j
 				}
 			}
 			pool.Stop()
